@@ -247,7 +247,16 @@ def explore_shape(prop, SH, OR, shape, validate=True, max_paths=None):
             # reachability twin: the assertion point is reached with a satisfiable
             # path condition (assert False must be violated); its model doubles as
             # the witness for validation against the real implementation
-            wit = eng.check(False)
+            extra = prop.witness_constraints(shape, inp) if hasattr(prop, 'witness_constraints') else None
+            if extra:
+                eng.solver.push()
+                for c in extra:
+                    eng.solver.add(c)
+                wit = eng.check(False)
+                eng.solver.pop()
+                eng._model = None
+            else:
+                wit = eng.check(False)
             if wit is None:
                 raise PathAbort()
             res['reached'] += 1
